@@ -4,7 +4,7 @@
 # Result: /verif/seeded/MATRIX.tsv (id, check, exit, new violation keys)
 cd /verif
 IDS="$@"; [ -z "$IDS" ] && IDS=$(ls seeded | grep '^C')
-OUT=/verif/seeded/MATRIX.tsv
+OUT=${MATRIX_OUT:-/verif/seeded/MATRIX.tsv}
 [ -z "$1" ] && : > $OUT
 for id in $IDS; do
   prop=${id%-*}
